@@ -299,7 +299,9 @@ class Engine:
         if isinstance(op, ast.Mod) and a.kind == 'str':
             # '%'-formatting: an opaque string constructor; the literal text before the first directive is kept, so
             # that a message is known to be non-empty
-            return self.formatted(a)
+            v = self.formatted(a)
+            v.fmt_template, v.fmt_args = (smt.lit_text(a.term) if a.kind == 'str' else None), b
+            return v
         if not (is_num(a) and is_num(b)):
             raise EngineError('binary %s on %s, %s' % (type(op).__name__, a.kind, b.kind))
         real = a.kind == 'real' or b.kind == 'real' or isinstance(op, ast.Div)
